@@ -590,10 +590,12 @@ def run(ctx):
                 continue
             op('boundary', 'boundary %s %d %d' % (fd, ax, sd), [], (lambda bd=bd: f.boundary(bd)))
 
-    def binop_requests(g1, g2):
+    def binop_requests(g1, g2, with_tensor=True):
         d1, d2 = fmt_func(g1), fmt_func(g2)
         for name, tokn, fn in (('outer_sum', 'osum', geometry.outer_sum), ('outer_product', 'oprod', geometry.outer_product),
                                ('tensor_product', 'tprod', geometry.tensor_product)):
+            if tokn == 'tprod' and not with_tensor:
+                continue
             add('%s %s %s' % (tokn, d1, d2), monitored(name, [g1, g2], (lambda fn=fn: fn(g1, g2))), ('op:' + name, g1, g2))
 
     for f in funcs:
@@ -623,6 +625,18 @@ def run(ctx):
         g1 = rand_func(rng, s1, k1, v1); g2 = rand_func(rng, s2, k2, v2)
         ctx.case(('bin', g1.coeffs.tobytes(), g2.coeffs.tobytes()), True)
         binop_requests(g1, g2)
+    # outer operations on value shapes of different rank (numpy broadcasting of the value axes: vector x matrix,
+    # matrix x vector, scalar x matrix, and a non-broadcastable pair whose expected answer is the error kind)
+    MIXED = [((2,), (2, 2)), ((2, 2), (2,)), ((3,), (2, 3)), ((2, 3), (3,)), ((), (2, 2)), ((3, 2), ()), ((1,), (2, 3)),
+             ((2, 1), (3,)), ((2, 2), (2, 2)), ((3,), (2, 2))]
+    nmix = 3 if ctx.tier == 'quick' else 20
+    for (v1, v2) in MIXED:
+        for _ in range(nmix):
+            s1 = int(rng.integers(1, 3)); s2 = int(rng.integers(1, 4 - s1))
+            g1 = rand_func(rng, s1, 'bsp', v1); g2 = rand_func(rng, s2, 'bsp', v2)
+            ctx.case(('mixed', g1.coeffs.tobytes(), g2.coeffs.tobytes()), True)
+            ctx.count('outer ops, value shapes %s x %s' % (v1, v2))
+            binop_requests(g1, g2, with_tensor=False)
     # curve constructors
     ncurve = 40 if ctx.tier == 'quick' else 400
     for _ in range(ncurve):
@@ -1138,6 +1152,18 @@ def oracle_checks(ctx, funcs):
             count += 1
             if d:
                 report('geo-oracle:' + name, d, describe(('op:' + name, g1, g2)))
+    for (v1, v2) in [((2,), (2, 2)), ((2, 2), (2,)), ((3,), (2, 3)), ((2, 3), (3,)), ((), (2, 2)), ((2, 1), (3,))]:
+        for _ in range(2 if ctx.tier == 'quick' else 12):
+            s1 = int(rng.integers(1, 3)); s2 = int(rng.integers(1, 4 - s1))
+            g1 = rand_func(rng, s1, 'bsp', v1); g2 = rand_func(rng, s2, 'bsp', v2)
+            for name in ('outer_sum', 'outer_product'):
+                try:
+                    d = oracle_operation(('op:' + name, g1, g2), rng)
+                except Exception as ex:
+                    d = '%s raised %s: %s' % (name, type(ex).__name__, str(ex)[:200])
+                count += 1
+                if d:
+                    report('geo-oracle:' + name, 'value shapes %s x %s: %s' % (v1, v2, d), describe(('op:' + name, g1, g2)))
     # cylinderize / unit_cube / identity
     for _ in range(max(3, nor // 5)):
         f = rand_func(rng, int(rng.integers(1, 3)), 'bsp', (int(rng.integers(1, 3)),))
